@@ -12,7 +12,7 @@ def plan(tier):
     SL = 2 if th else 1
     S = ['-DSL=%d' % SL]
     pv = lambda a, b, c, s: [a, b, c >> 32 & 0xffffffff, c & 0xffffffff, len(s)] + [ord(x) for x in (s + 'zz')[:SL]]
-    qs = [Query('ops', ['-DMODE_OPS'] + S, ['equal pair', 'pair ordered by a later component', 'different hashes'], unwind=2, est_gb=2, hardcap=12,
+    qs = [Query('ops', ['-DMODE_OPS'] + S, ['equal pair', 'pair ordered by a later component', 'different hashes'], unwind=2, est_gb=2, hardcap=12, timeout=3600 if th else 900,
                 profile=[pv(1, 2, 3, 'a') + pv(1, 2, 3, 'a'), pv(1, 2, 3, 'a') + pv(1, 2, 3, 'b'), pv(0, 0, 0, '') + pv(1, 0, 0, 'a')],
                 sample={'values': 'two symbolic (int, unsigned char, long, string of <= %d bytes)' % SL, 'claims': 'six operators == lexicographic reference; equal => equal hash; hash_wrapper == hash'}),
           Query('trans', ['-DMODE_TRANS'] + S, ['chain x < y < z'], unwind=2, est_gb=2, hardcap=12,
@@ -21,15 +21,25 @@ def plan(tier):
           Query('sens', ['-DMODE_SENS'], SENS, unwind=2, est_gb=2, hardcap=12, profile=[[1, 2, 3, 4, 5, 6, 7, 8, 0, 9, 0, 10]], required_sat=SENS,
                 sample={'claims': 'last component injective (universal); per-component / order sensitivity (existential, the witness must exist)',
                         'types': 'tuple<int,int>, tuple<int,uchar,long>, pair<int,long>, tuple<pair<int,int>,int>, variant<int,long>, unique_ptr<int>, shared_ptr<int>, tuple<unique_ptr<int>,int>'})]
-    corpus = [(['-DMODE_OPS'] + S, pv(1, 2, 3, 'a') + pv(1, 2, 3, 'a')), (['-DMODE_OPS'] + S, pv(0, 0, 0, '') + pv(1, 0, 0, '')), (['-DMODE_OPS'] + S, pv(1, 200, 5, 'a') + pv(1, 100, 5, 'a')),
+    def fp(d1, d2, f1, f2, a1, a2):
+        import struct
+        b = lambda d: struct.unpack('<Q', struct.pack('<d', d))[0]
+        bf = lambda f: struct.unpack('<I', struct.pack('<f', f))[0]
+        return [b(d1) >> 32, b(d1) & 0xffffffff, b(d2) >> 32, b(d2) & 0xffffffff, bf(f1), bf(f2), a1 & 0xffffffff, a2 & 0xffffffff]
+    fpv = [fp(0.0, -0.0, 1.5, 1.5, 3, 3), fp(1.25, 1.25, -0.0, 0.0, -1, -1), fp(-2.5, 1e300, 0.0, 0.0, 0, 0), fp(7.0, 7.0, 1.0, 2.0, 5, 5), fp(float('inf'), float('-inf'), 0.0, 0.0, 1, 2)]
+    qs.append(Query('fp', ['-DMODE_FP'], ['equal values with different zero signs', 'equal non-zero values', 'ordered by the float member', 'tuple hash depends on the double component'],
+                    unwind=2, est_gb=2, hardcap=12, profile=fpv[:3], required_sat=['tuple hash depends on the double component'],
+                    sample={'values': 'two symbolic (double, int, float) member tuples: every bit pattern except NaN', 'claims': 'six operators == lexicographic reference; equal => equal hash for the mix-in type, tuple<int,double>, pair<double,int>, variant<int,double>, float',
+                            'note': 'std::_Hash_bytes (out of line in libstdc++) is a deterministic byte mix in the model'}))
+    corpus = [(['-DMODE_FP'], v) for v in fpv] + [(['-DMODE_OPS'] + S, pv(1, 2, 3, 'a') + pv(1, 2, 3, 'a')), (['-DMODE_OPS'] + S, pv(0, 0, 0, '') + pv(1, 0, 0, '')), (['-DMODE_OPS'] + S, pv(1, 200, 5, 'a') + pv(1, 100, 5, 'a')),
               (['-DMODE_OPS'] + S, pv(1, 2, 1 << 40, 'b') + pv(1, 2, 3, 'a')), (['-DMODE_OPS'] + S, pv(0xffffffff, 2, 3, 'a') + pv(1, 2, 3, 'a')),
               (['-DMODE_TRANS'] + S, pv(1, 2, 3, 'a') + pv(1, 2, 3, 'b') + pv(2, 0, 0, '')), (['-DMODE_SENS'], [1, 2, 3, 4, 5, 6, 7, 8, 0, 9, 0, 10]), (['-DMODE_SENS'], [0] * 12),
               # 64-bit components that differ only in the upper / only in the lower half, sign bit, all ones
               (['-DMODE_SENS'], [1, 2, 3, 4, 5, 6, 7, 8, 1, 9, 0, 9]), (['-DMODE_SENS'], [1, 2, 3, 4, 5, 6, 7, 8, 0x80000000, 0, 0, 0]), (['-DMODE_SENS'], [0xffffffff, 0xffffffff, 0, 1, 0x7fffffff, 0x80000000, 255, 0, 0xffffffff, 0xffffffff, 0x7fffffff, 0xffffffff])]
     u = Unit('hash', 'harness/C16/h_c16.cpp', 'harness/C16/cb_c16.c', caps={'str': 4, 'vec': 2, 'ss': 4}, queries=qs, corpus=corpus)
     return Runner('C16', tier, [u],
-                  bounds={'values': 'full-width symbolic int / unsigned char / long; strings of 0..%d bytes' % SL, 'pairs_triples': 'all pairs and all triples of such values'},
-                  outside=['floating-point members (ir2c has no floating-point lowering): signed zeros and NaN are not covered', 'std::unordered_set/map internals (libstdc++ .so code): the container clause is reduced to hash/equality coherence',
+                  bounds={'values': 'full-width symbolic int / unsigned char / long / double / float; strings of 0..%d bytes' % SL, 'pairs_triples': 'all pairs and all triples of such values'},
+                  outside=['NaN members (NaN != NaN: never part of "equal values", and the member-tuple order is not total on it)', 'long double', 'std::unordered_set/map internals (libstdc++ .so code): the container clause is reduced to hash/equality coherence',
                            'null smart pointers (dereferenced by hash(); excluded by the statement "of hashable things")', 'wide strings'],
-                  assumptions=['std::hash<std::string> is modelled by a deterministic byte hash (FNV-1a); std::hash<int/long/char> is the real libstdc++ header code (identity)',
+                  assumptions=['std::hash<float/double> is the real libstdc++ header code (zero check included); the out-of-line std::_Hash_bytes it calls is modelled by a deterministic byte mix', 'std::hash<std::string> is modelled by a deterministic, multiplication-free byte mix; std::hash<int/long/char> is the real libstdc++ header code (identity)',
                                'real <tuple>, <variant>, <memory> from libstdc++ are in the IR; shared_ptr reference-count atomics are lowered to plain read-modify-write (single-threaded harness)'])
